@@ -9,6 +9,7 @@ mod gen_table;
 mod gens;
 mod oracle_a;
 mod oracle_b;
+mod probe;
 mod props;
 mod rng;
 mod runner;
@@ -150,6 +151,7 @@ fn main() {
         "run" => std::process::exit(cmd_run(&args)),
         "replay" => std::process::exit(cmd_replay(&args)),
         "worker" => std::process::exit(cmd_worker(&args)),
+        "probe" => std::process::exit(probe::cmd_probe()),
         _ => {
             eprintln!("usage: harness run --prop Cxx --n N --seed S [--thorough] [--report f] | harness replay file.case");
             std::process::exit(2);
